@@ -162,11 +162,10 @@ def snap(mol):
     for _, a in mol.atoms():
         a.x = kcoord(a.x) / 10000
         a.y = kcoord(a.y) / 10000
-    if any(b.stereo is not None for *_, b in mol.bonds()):
-        for *_, b in mol.bonds():
-            b._stereo = None
-        mol.flush_cache()
-        mol.calculate_cis_trans_from_2d()
+    for *_, b in mol.bonds():
+        b._stereo = None
+    mol.flush_cache()
+    mol.calculate_cis_trans_from_2d()
     mol.flush_cache()
     return mol
 
@@ -518,6 +517,15 @@ def corrupt_lines(rng, lines):
     return kind, lines
 
 
+def mol_block_lines(text):
+    """the MOL block of a written record exactly as SDFRead._read_mol cuts it: up to the first line starting with M  END"""
+    lines = text.splitlines(keepends=True)
+    for i, l in enumerate(lines):
+        if l.startswith('M  END'):
+            return lines[:i + 1]
+    return lines
+
+
 def splitkeep(text):
     return text.splitlines(keepends=True) if '\r' not in text else None
 
@@ -548,7 +556,7 @@ class Batch:
             ctx.broke('correspondence', self.stream, f'driver answered {len(got)} lines for {len(self.req)} requests')
             return
         bad = 0
-        for g, e, c in zip(got, self.exp, self.case):
+        for g, e, c, rq in zip(got, self.exp, self.case, self.req):
             ctx.cov['disagreements_checked'] += 1
             if 'err:unsupported' in g:
                 ctx.dist(self.stream + ':out-of-model')
@@ -561,7 +569,8 @@ class Batch:
                 bad += 1
                 if bad <= 3:
                     ctx.broke('correspondence', self.stream,
-                              f'case {c}\n model: {g[:1500]}\n real : {(e if isinstance(e, str) else "<predicate>")[:1500]}')
+                              f'case {c}\n model: {g[:1200]}\n real : {(e if isinstance(e, str) else "<predicate>")[:1200]}'
+                              f'\n request: {rq[:1500]}')
                     _state.setdefault('disagreements', []).append((self.stream, c))
         ctx.dist(self.stream, len(self.req))
 
@@ -626,7 +635,7 @@ def stream_writer(ctx, mols):
         if real.startswith('ok'):
             text = real_sdf_text(m, mapping)
             texts.append((tag, m, text))
-            lines = text.split('M  END\n')[0].splitlines(keepends=True) + ['M  END\n']
+            lines = mol_block_lines(text)
             if '\r' not in text and '\n' not in m.name:
                 bp.add('pmol2000 ' + raw(''.join(lines)), real_parse2000(lines), (tag, 'parse-written'), key=''.join(lines))
     if ctx.cov['samples'] == [] and texts:
@@ -649,7 +658,7 @@ def stream_writer(ctx, mols):
                 (tag, 'esdfwrite'), key=(tag, real))
         if t3 is not None and '\r' not in t3 and '\n' not in m.name:
             texts3.append((tag, m, t3))
-            lines = t3.split('M  END\n')[0].splitlines(keepends=True) + ['M  END\n']
+            lines = mol_block_lines(t3)
             bp3.add('pmol3000 ' + raw(''.join(lines)), real_parse3000(lines), (tag, 'parse-written-v3'), key=''.join(lines))
     bw3.run()
     bp3.run()
@@ -664,7 +673,7 @@ def stream_parse_corrupt(ctx, texts, n):
         tag, m, text = rng.choice(texts)
         if '\r' in text or '\n' in m.name:
             continue
-        lines = text.split('M  END\n')[0].splitlines(keepends=True) + ['M  END\n']
+        lines = mol_block_lines(text)
         kinds = []
         for _ in range(rng.choice([1, 1, 1, 2])):
             k, lines = corrupt_lines(rng, lines)
@@ -721,7 +730,7 @@ def stream_parse_corrupt_v3(ctx, n):
     bs = Batch(ctx, 'P:v3000-split')
     for _ in range(n):
         tag, m, text = rng.choice(texts3)
-        lines = text.split('M  END\n')[0].splitlines(keepends=True) + ['M  END\n']
+        lines = mol_block_lines(text)
         kinds = []
         for _ in range(rng.choice([1, 1, 2])):
             k, lines = corrupt_v3(rng, lines)
